@@ -742,6 +742,7 @@ func main() {
 	}
 	_ = errors.New
 	importerCloseStage()
+	importLimitsStage()
 	rep.Write(orc)
 }
 
